@@ -244,6 +244,57 @@ pub fn generate<W: Write>(c: &mut Cases<W>, rng: &mut Rng, thorough: bool, which
         }
         c.end();
     }
+    // C17: the public budget setter with degenerate values (0, 1, not a multiple of the bound size) under
+    // both reallocation policies: the buffer is never a zero-sized allocation, nothing panics, the
+    // output is the sorted input
+    if which == "C17" {
+        let z0 = alloc_track::ZERO_SIZED.load(Relaxed);
+        for threshold in [0usize, 1, 15, 16, 17, 4096] {
+            for realloc in [false, true] {
+                // in a watchdog thread: a degenerate buffer must not make an insert loop forever
+                let (tx, rx) = std::sync::mpsc::channel();
+                std::thread::spawn(move || {
+                    let r = catch(|| -> Result<Vec<(Vec<u8>, Vec<u8>)>, String> {
+                        let mf = LoggingConcat { calls: RefCell::new(Vec::new()), fail_at: None, sort: false };
+                        let mut b = SorterBuilder::new(mf);
+                        b.dump_threshold(threshold).allow_realloc(realloc);
+                        let mut sorter = b.build();
+                        for i in (0..40u32).rev() {
+                            sorter.insert(i.to_be_bytes(), [i as u8; 5]).map_err(|e| err_class(&e))?;
+                        }
+                        let mut out = Vec::new();
+                        let mut it = sorter.into_stream_merger_iter().map_err(|e| err_class(&e))?;
+                        while let Some((k, v)) = it.next().map_err(|e| err_class(&e))? {
+                            out.push((k.to_vec(), v.to_vec()));
+                        }
+                        Ok(out)
+                    });
+                    let _ = tx.send(r);
+                });
+                let r = match rx.recv_timeout(std::time::Duration::from_secs(30)) {
+                    Ok(r) => r,
+                    Err(_) => {
+                        println!("DIRECT fail sorter with dump_threshold({}) allow_realloc({}) did not finish 40 inserts within 30 s ({} zero-sized allocation(s) so far)",
+                                 threshold, realloc, alloc_track::ZERO_SIZED.load(Relaxed) - z0);
+                        c.bump("public_budget_cases", 1);
+                        continue;
+                    }
+                };
+                let expect: Vec<(Vec<u8>, Vec<u8>)> = (0..40u32).map(|i| (i.to_be_bytes().to_vec(), vec![i as u8; 5])).collect();
+                match r {
+                    Ok(Ok(out)) if out == expect => {}
+                    Ok(Ok(_)) => println!("DIRECT fail sorter with dump_threshold({}) allow_realloc({}) returned other entries", threshold, realloc),
+                    Ok(Err(e)) => println!("DIRECT fail sorter with dump_threshold({}) allow_realloc({}) failed: {}", threshold, realloc, e),
+                    Err(_) => println!("DIRECT fail sorter with dump_threshold({}) allow_realloc({}) panicked", threshold, realloc),
+                }
+                c.bump("public_budget_cases", 1);
+            }
+        }
+        let z = alloc_track::ZERO_SIZED.load(Relaxed) - z0;
+        if z > 0 {
+            println!("DIRECT fail {} zero-sized allocation(s) requested by the sorter built with the public budget setter", z);
+        }
+    }
     alloc_track::ENABLED.store(false, Relaxed);
     c.bump("alloc.tracked", alloc_track::TRACKED.load(Relaxed));
 }
